@@ -121,9 +121,9 @@ func cloneNode(n *tg.Node) *tg.Node {
 // ordinary property name is replaced, with probability p %, by a special name; the names of the copy
 // are pairwise distinct (decoded) wherever those of the original are. Key shortcuts are kept.
 func Rekey(g *tg.Graph, r *rand.Rand, p int) *tg.Graph {
-	out := &tg.Graph{Root: cloneNode(g.Root)}
+	out := &tg.Graph{Root: cloneNode(g.Root), RootOpt: g.RootOpt} // the option of every schema object is kept
 	for _, t := range g.Types {
-		out.Types = append(out.Types, tg.TypeDef{Name: t.Name, Body: cloneNode(t.Body)})
+		out.Types = append(out.Types, tg.TypeDef{Name: t.Name, Body: cloneNode(t.Body), Opt: t.Opt})
 	}
 	used := map[string]bool{}
 	all := func(f func(obj *tg.Node, pr *tg.Prop)) {
